@@ -16,7 +16,8 @@ RULE = ('split: every valid signature of <=4 (quick) / <=5 (thorough) characters
         'infer: Python values built bottom-up from bool/int32/float/str/bytearray/wrapper classes in lists, tuples '
         'and dicts whose elements are (1) homogeneous, (2) of Python classes unrelated to the first element or '
         '(3) subclass instances fitting the first element type; oracle: sigFromPy is one complete type, wrappers '
-        'select their code, marshal("v") succeeds and unmarshal returns an equal value (Python ==). Non-trivial: '
+        'select their code, marshal("v") succeeds and unmarshal returns an equal value (Python ==); infer_long: wide structs '
+        'whose inferred signature has exactly 250..255 characters. Non-trivial: '
         'signature contains a container / value contains a container with >=2 elements; distinct = distinct case JSON.')
 ASSUMPTIONS = [
     'containers whose elements share a Python class but not a D-Bus type are outside the claim and not generated',
@@ -368,6 +369,20 @@ def run_infer(case):
     return out
 
 
+def enum_infer_long(tier):
+    """Values whose inferred signature is 250..255 characters long (255 is the most a signature may have): wide
+    structs of ints, of int lists, with a wrapper in the middle, alone or as one element of a heterogeneous list."""
+    for total in range(250, 256):
+        wide = ['tuple', [['int', i % 7] for i in range(total - 2)]]                    # (iii...i)
+        yield {'pv': wide, 'off': 0}
+        yield {'pv': ['list', [wide, ['str', 'x']]], 'off': 4}                          # nested variant inside av
+        if (total - 3) % 2 == 0:
+            lists = ['tuple', [['str', 's']] + [['list', [['int', 1], ['int', 2]]] for _ in range((total - 3) // 2)]]
+            yield {'pv': lists, 'off': 0}                                               # (saiai...ai)
+        mixed = ['tuple', [['w', 'y', 5]] + [['int', i % 3] for i in range(total - 4)] + [['w', 't', 2**40]]]
+        yield {'pv': mixed, 'off': 1}
+
+
 def _count_big(node):
     big = 0
     if node[0] in ('list', 'tuple', 'dict'):
@@ -403,4 +418,7 @@ SUBCHECKS = [
              n={'quick': 300, 'thorough': 3000}),
     Subcheck('infer', run_infer, classify_infer, strategy=lambda tier: infer_case(tier),
              n={'quick': 700, 'thorough': 6000}),
+    Subcheck('infer_long', run_infer, lambda c: (True, ['inferred_signature_250_255']), enumerate=enum_infer_long,
+             shards={'quick': 2, 'thorough': 2},
+             exhaustive_note='wide structs whose inferred signature has exactly 250..255 characters (the limit), in four shapes'),
 ]
